@@ -484,7 +484,7 @@ def rewrite_body(text, fired):
 
 def rewrite_sig(sig, fired, ret_name='r'):
     s = sig
-    s2 = re.sub(r'\bpub\((super|crate|self)\)\s+', '', s)
+    s2 = re.sub(r'\bpub(\((super|crate|self)\))?\s+', '', s)
     if s2 != s:
         fired.append('R6 visibility qualifier deleted')
         s = s2
@@ -517,6 +517,12 @@ SEP = '\x01'
 def apply_splices(body, splices, fired, what):
     """splices: list of (anchor, mode, text); mode in after|before|replace. anchor must occur exactly once."""
     for (anchor, mode, txt) in splices:
+        if anchor == '^':       # function entry: right after the opening brace of the body
+            if not body.startswith('{'):
+                raise ExtractError('ANCHOR-LOST in %s: body does not start with {' % what)
+            body = '{' + SEP + txt.replace('\n', SEP) + SEP + body[1:]
+            fired.append('R8 splice at function entry')
+            continue
         cnt = body.count(anchor)
         if cnt != 1:
             raise ExtractError('ANCHOR-LOST in %s: %r occurs %d times' % (what, anchor, cnt))
